@@ -297,9 +297,17 @@ func (w *world) checkRecord(t *truth, rec map[string]any) {
 			rep.count(fmt.Sprintf("chunked-request.request_bytes=%s", map[bool]string{true: "0", false: "nonzero"}[rb == 0]), 1)
 		}
 		enc := strings.ToLower(t.RespEncoding)
-		if sb != t.Recv {
+		switch {
+		case t.CutShort && sb != t.Recv:
+			bad("bytes:response_bytes:"+t.Phase+encTag(enc)+":write-cut-short", "response_bytes=%d, but the connection accepted only %d body bytes before it failed (encoding %q, limit %d)", sb, t.Recv, enc, t.CutLimit)
+		case t.CutShort:
+			rep.class("egress.write-cut-short" + encTag(enc))
+			if t.Recv == 0 {
+				rep.class("egress.write-cut-short.before-first-byte")
+			}
+		case sb != t.Recv:
 			bad("bytes:response_bytes:"+t.Phase+encTag(enc), "response_bytes=%d, the client received a %d-byte body (encoding %q)", sb, t.Recv, enc)
-		} else {
+		default:
 			rep.class("bytes.response.verified" + encTag(enc))
 		}
 		if eb, ok := intOf(rec, "externalized_bytes"); ok {
